@@ -36,7 +36,13 @@ Definition obs_unroll N sh space timebins cs shots q :=
   end.
 
 (* get_tdm_options after a history *)
-Definition obs_options N sh timebins cs (h : list call) (space_kw : bool) (shots : option nat) (crop : bool) (cropv : nat) :=
+Definition obs_options N sh timebins cs (h : list call) (space_kw : bool) (kw ro : option (option nat)) (crop : bool) (cropv : nat) :=
   let st := run_calls N sh timebins cs (init_state N) h in
-  let r := tdm_options N sh timebins cs space_kw shots crop cropv st in
+  let r := tdm_options N sh timebins cs space_kw (resolve_shots kw ro) crop cropv st in
   (obs_state (fst (fst (fst r))), (obs_opt (0, 0) (snd (fst (fst r))), snd (fst r), snd r)).
+
+Definition obs_delays (bands : nat) (bs : list (nat * nat)) (arrays : list (list bool)) :=
+  match get_delays_opt bands bs with
+  | Some d => (true, d, crop_value 0 arrays d)
+  | None => (false, [], 0)
+  end.
